@@ -19,6 +19,7 @@
 From Coq Require Import List ZArith NArith Bool Arith Lia.
 From Goloop Require Import Model_ConsensusNode Proofs_ConsensusNode Proofs_ConsensusNode_C01
   Model_ConsensusNet Proofs_ConsensusNet_Link Proofs_ConsensusNet_LockWAL.
+From Goloop Require Proofs_ConsensusNet_Run.
 Import ListNotations.
 Open Scope Z_scope.
 
@@ -130,6 +131,7 @@ Section Sim2.
     sr_k0 : forall v, K0 v -> known s v;
     sr_walr : Forall (lsub (known s)) (wal_all (wal_r s));
     sr_walc : Forall (lsub (known s)) (wal_all (wal_c s));
+    sr_crv : forall v, ~ In (RVote v) (wal_all (wal_c s));
     sr_pend : forall v, In (RVote v) (w_unsynced (wal_r s)) -> pend_ok L s T v;
     sr_pend1 : forall u v, In (RVote u) (w_unsynced (wal_r s)) -> In (RVote v) (w_unsynced (wal_r s)) -> u = v;
     sr_shape : lockwal_shape n blocks (known s) (w_synced (wal_l s)) L;
@@ -212,6 +214,7 @@ Section Sim2.
     - intros v Hv. apply KE. apply (sr_k0 H); auto.
     - rewrite Er. eapply Forall_lsub_mono; [exact M|apply (sr_walr H)].
     - rewrite Ec. eapply Forall_lsub_mono; [exact M|apply (sr_walc H)].
+    - rewrite Ec. apply (sr_crv H).
     - rewrite Er. intros v Hv. eapply pend_ok_dur; eauto. apply (sr_pend H v Hv).
     - rewrite Er. apply (sr_pend1 H).
     - rewrite El. eapply lockwal_shape_mono; [exact M|apply (sr_shape H)].
@@ -364,6 +367,7 @@ Section Sim2.
       + eapply Forall_lsub_mono; [|apply (sr_walr H)]. intro v; apply KE.
       + constructor; [|constructor]. eapply lsub_mono; [|apply (K eq_refl)]. intro v; apply KE.
     - apply (sr_walc H).
+    - apply (sr_crv H).
     - intros v Hv. apply Un in Hv as [Hv|Hv]; [|exfalso; eapply NR; eauto].
       destruct (sr_pend H v Hv) as [A B']. split; auto.
     - intros u v Hu Hv. apply Un in Hu as [Hu|Hu]; [|exfalso; eapply NR; eauto].
@@ -380,9 +384,9 @@ Section Sim2.
     - intros O v Hv. apply Un in Hv as [Hv|Hv]; [|eapply NR; eauto]. eapply (sr_nopend H (Ok O)); eauto.
   Qed.
 
-  Lemma SimR_write_c L r s T : (blown s = false -> lsub (known s) r) -> SimR L s T -> SimR L (emit (OWrite WCommit r) s) T.
+  Lemma SimR_write_c L r s T : not_rvote r -> (blown s = false -> lsub (known s) r) -> SimR L s T -> SimR L (emit (OWrite WCommit r) s) T.
   Proof.
-    intros K H. destruct (blown s) eqn:B; [rewrite emit_blown; auto|].
+    intros NR K H. destruct (blown s) eqn:B; [rewrite emit_blown; auto|].
     destruct (emit_unblown (OWrite WCommit r) s B) as [k ->].
     set (s' := apply_out (OWrite WCommit r) (set_outs (outs s ++ [OWrite WCommit r]) k s)).
     assert (Wc : wal_c s' = wal_write (wal_c s) r) by reflexivity.
@@ -402,6 +406,7 @@ Section Sim2.
     - rewrite Wc, wal_all_write. apply Forall_app. split.
       + eapply Forall_lsub_mono; [|apply (sr_walc H)]. intro v; apply KE.
       + constructor; [|constructor]. eapply lsub_mono; [|apply (K eq_refl)]. intro v; apply KE.
+    - rewrite Wc, wal_all_write. intros v Hv. apply In_app_one in Hv as [Hv|Hv]; [eapply (sr_crv H); eauto|eapply NR; eauto].
     - rewrite Wr. intros v Hv. eapply pend_ok_dur; [exact Wl|]. apply (sr_pend H v Hv).
     - rewrite Wr. apply (sr_pend1 H).
     - rewrite Wl. eapply lockwal_shape_mono; [|apply (sr_shape H)]. intro v; apply KE.
@@ -485,6 +490,7 @@ Section Sim2.
     - apply Forall_forall. intros x Hx. apply Wa in Hx as [Hx| ->]; [|exact I].
       pose proof (sr_walr H) as W. rewrite Forall_forall in W. eapply lsub_mono; [exact M|auto].
     - rewrite Wc. eapply Forall_lsub_mono; [exact M|apply (sr_walc H)].
+    - rewrite Wc. apply (sr_crv H).
     - intros u Hu. exfalso. eapply Nr; eauto.
     - intros u w Hu. exfalso. eapply Nr; eauto.
     - rewrite Wl. eapply lockwal_shape_mono; [exact M|apply (sr_shape H)].
@@ -508,27 +514,20 @@ Section Sim2.
     - apply (vr_nopend (V T' Lk Dd)).
   Qed.
 
-  Lemma SimR_sync_r L s T : SimR L s T -> exists T', SimR L (emit (OSync WRound) s) T'.
+  (* a state whose round WAL is the synced round WAL of [s] (the sync output, or
+     the recovery at restart) *)
+  Lemma SimR_syncr_state L s s' T :
+    SimR L s T -> wal_r s' = wal_sync (wal_r s) -> wal_l s' = wal_l s ->
+    wal_all (wal_c s') = wal_all (wal_c s) -> decided s' = decided s ->
+    (forall T', TM.lock T' i = TM.lock T i -> TM.decided T' = TM.decided T ->
+                (forall u, known s u -> known s' u) -> volR L s' T') ->
+    exists T', SimR L s' T' /\ TM.lock T' i = TM.lock T i /\ TM.decided T' = TM.decided T.
   Proof.
-    intros H. destruct (blown s) eqn:B; [rewrite emit_blown; eauto|].
-    destruct (emit_unblown (OSync WRound) s B) as [k ->].
-    set (s' := apply_out (OSync WRound) (set_outs (outs s ++ [OSync WRound]) k s)).
-    assert (Wr : wal_r s' = wal_sync (wal_r s)) by reflexivity.
-    assert (Ok : vol_ok s' -> vol_ok s) by (intro Ok; eapply vol_ok_apply; eauto).
-    assert (Vol : forall T', TM.lock T' i = TM.lock T i -> TM.decided T' = TM.decided T ->
-                  (forall u, known s u -> known s' u) -> volR L s' T').
-    { intros T' Lk Dd M. constructor; intro O; specialize (Ok O).
-      - rewrite Lk. apply (sr_lock H Ok).
-      - intros u Hu. apply M. apply (sr_hvs H Ok); auto.
-      - apply (sr_round H Ok).
-      - rewrite Lk. apply (sr_lk H Ok).
-      - rewrite Wr. cbn. intros v []. }
+    intros H Wr Wl Wc Dc Vol.
     destruct (find_rvote (w_unsynced (wal_r s))) as [[v Hv]|Nv].
     - (* the pending vote is cast *)
       assert (Wv : In (RVote v) (wal_all (wal_r s))) by (unfold wal_all; apply in_or_app; right; auto).
       destruct (sr_rv H _ Wv) as [F Rd].
-      cut (exists T', SimR L s' T' /\ TM.lock T' i = TM.lock T i /\ TM.decided T' = TM.decided T).
-      { intros [T' [A _]]. eauto. }
       apply (@SimR_cast L s s' T v H F (sr_pend H v Hv)); auto.
       + intro u. rewrite Wr. cbn. rewrite in_app_iff. split.
         * intros [A|A]; auto. right. apply (sr_pend1 H); auto.
@@ -538,7 +537,7 @@ Section Sim2.
       + intros T' Lk Dd. apply Vol; auto. intros u [Ku|Ku]; [left; auto|right].
         unfold cast. rewrite Wr. cbn. apply in_or_app; auto.
     - (* nothing to cast *)
-      exists T.
+      exists T. split; [|auto].
       assert (KE : forall u, known s' u <-> known s u).
       { intro u. unfold known, cast. rewrite Wr. cbn. rewrite in_app_iff. split; [|tauto].
         intros [A|[A|A]]; auto. exfalso. eapply Nv; eauto. }
@@ -549,15 +548,16 @@ Section Sim2.
       + intro m. rewrite (sr_soup H). split; intros [u [Ku C]]; exists u; split; auto; apply KE; auto.
       + rewrite Wr, wal_all_sync2. apply (sr_rv H).
       + apply (sr_lpolka H).
-      + apply (sr_dec H).
+      + rewrite Dc. apply (sr_dec H).
       + intros u Hu. apply M. apply (sr_k0 H); auto.
       + rewrite Wr, wal_all_sync2. eapply Forall_lsub_mono; [exact M|apply (sr_walr H)].
-      + eapply Forall_lsub_mono; [exact M|apply (sr_walc H)].
+      + rewrite Wc. eapply Forall_lsub_mono; [exact M|apply (sr_walc H)].
+      + rewrite Wc. apply (sr_crv H).
       + rewrite Wr. cbn. intros u [].
       + rewrite Wr. cbn. intros u w [].
-      + eapply lockwal_shape_mono; [exact M|apply (sr_shape H)].
+      + rewrite Wl. eapply lockwal_shape_mono; [exact M|apply (sr_shape H)].
       + apply (sr_lsafe H).
-      + destruct (sr_lpart H) as [A|[pv [b [r0 [k0 [A [B' [C D]]]]]]]]; auto.
+      + rewrite Wl. destruct (sr_lpart H) as [A|[pv [b [r0 [k0 [A [B' [C D]]]]]]]]; auto.
         right. exists pv, b, r0, k0. split; [auto|split; [auto|split; [|auto]]].
         eapply vs_sub_mono; [exact M|exact C].
       + apply (vr_lock (Vol T eq_refl eq_refl M)).
@@ -565,6 +565,23 @@ Section Sim2.
       + apply (vr_round (Vol T eq_refl eq_refl M)).
       + apply (vr_lk (Vol T eq_refl eq_refl M)).
       + apply (vr_nopend (Vol T eq_refl eq_refl M)).
+  Qed.
+
+  Lemma SimR_sync_r L s T :
+    SimR L s T -> exists T', SimR L (emit (OSync WRound) s) T' /\ TM.lock T' i = TM.lock T i /\ TM.decided T' = TM.decided T.
+  Proof.
+    intros H. destruct (blown s) eqn:B; [rewrite emit_blown; eauto|].
+    destruct (emit_unblown (OSync WRound) s B) as [k ->].
+    set (s' := apply_out (OSync WRound) (set_outs (outs s ++ [OSync WRound]) k s)).
+    assert (Wr : wal_r s' = wal_sync (wal_r s)) by reflexivity.
+    assert (Ok : vol_ok s' -> vol_ok s) by (intro Ok; eapply vol_ok_apply; eauto).
+    apply (@SimR_syncr_state L s s' T H Wr); try reflexivity.
+    intros T' Lk Dd M. constructor; intro O; specialize (Ok O).
+    - rewrite Lk. apply (sr_lock H Ok).
+    - intros u Hu. apply M. apply (sr_hvs H Ok); auto.
+    - apply (sr_round H Ok).
+    - rewrite Lk. apply (sr_lk H Ok).
+    - rewrite Wr. cbn. intros v [].
   Qed.
 
   (* ---------------- an own vote: WAL write and sync ---------------- *)
@@ -615,6 +632,7 @@ Section Sim2.
       + rewrite W1, wal_all_write. apply Forall_app. split; [|constructor; [exact I|constructor]].
         eapply Forall_lsub_mono; [exact M|apply (sr_walr H)].
       + rewrite C1. eapply Forall_lsub_mono; [exact M|apply (sr_walc H)].
+      + rewrite C1. apply (sr_crv H).
       + rewrite W1. cbn. intros u Hu. apply In_app_one in Hu as [Hu|Hu]; [exfalso; eapply Nv; eauto|].
         inversion Hu; subst. eapply pend_ok_dur; [exact L1|exact P].
       + rewrite W1. cbn. intros u w Hu Hw.
@@ -695,6 +713,7 @@ Section Sim2.
     - intros u Hu. apply M. apply (sr_k0 H); auto.
     - rewrite Wr. eapply Forall_lsub_mono; [exact M|apply (sr_walr H)].
     - rewrite Wc. eapply Forall_lsub_mono; [exact M|apply (sr_walc H)].
+    - rewrite Wc. apply (sr_crv H).
     - rewrite Wr. intros u Hu. exfalso. eapply (sr_nopend H (conj R B)); eauto.
     - rewrite Wr. apply (sr_pend1 H).
     - rewrite Wl. cbn. eapply lockwal_shape_mono; [exact M|apply (sr_shape H)].
@@ -757,6 +776,7 @@ Section Sim2.
     - intros u Hu. apply M. apply (sr_k0 H); auto.
     - rewrite Wr. eapply Forall_lsub_mono; [exact M|apply (sr_walr H)].
     - rewrite Wc. eapply Forall_lsub_mono; [exact M|apply (sr_walc H)].
+    - rewrite Wc. apply (sr_crv H).
     - rewrite Wr. intros u Hu. exfalso. eapply (sr_nopend H (conj R B)); eauto.
     - rewrite Wr. apply (sr_pend1 H).
     - rewrite Wl. cbn. eapply lockwal_shape_mono; [exact M|apply (sr_shape H)].
@@ -824,6 +844,7 @@ Section Sim2.
     - intros u Hu. apply M. apply (sr_k0 H); auto.
     - rewrite Wr. eapply Forall_lsub_mono; [exact M|apply (sr_walr H)].
     - rewrite Wc. eapply Forall_lsub_mono; [exact M|apply (sr_walc H)].
+    - rewrite Wc. apply (sr_crv H).
     - rewrite Wr. intros u Hu. exfalso. eapply (sr_nopend H (conj R B)); eauto.
     - rewrite Wr. apply (sr_pend1 H).
     - rewrite Wl. cbn. rewrite Ul.
@@ -915,6 +936,7 @@ Section Sim2.
       + intros u Hu. apply KE. apply (sr_k0 H); auto.
       + rewrite Er. eapply Forall_lsub_mono; [|apply (sr_walr H)]. intro u; apply KE.
       + rewrite Ec. eapply Forall_lsub_mono; [|apply (sr_walc H)]. intro u; apply KE.
+      + rewrite Ec. apply (sr_crv H).
       + rewrite Er. intros u Hu. exfalso. eapply (sr_nopend H Ok); eauto.
       + rewrite Er. apply (sr_pend1 H).
       + rewrite El. eapply lockwal_shape_mono; [|apply (sr_shape H)]. intro u; apply KE.
@@ -982,10 +1004,189 @@ Section Sim2.
     assert (Dd : TM.decided T i = Some b) by (rewrite (Cm Ok St); exact Cu).
     assert (KE : forall u, known s' u <-> known s u) by (intro u; reflexivity).
     constructor.
-    - destruct H. constructor; auto.
-      intros b0 Eb. cbn in Eb. inversion Eb; subst. exact Dd.
+    - constructor.
+      + apply (sr_reach H).
+      + apply (sr_frame H).
+      + apply (sr_soup H).
+      + apply (sr_rv H).
+      + apply (sr_lpolka H).
+      + intros b0 Eb. cbn in Eb. inversion Eb; subst. exact Dd.
+      + apply (sr_k0 H).
+      + apply (sr_walr H).
+      + apply (sr_walc H).
+      + apply (sr_crv H).
+      + apply (sr_pend H).
+      + apply (sr_pend1 H).
+      + apply (sr_shape H).
+      + apply (sr_lsafe H).
+      + apply (sr_lpart H).
+      + intros _. apply (sr_lock H Ok).
+      + intros _. apply (sr_hvs H Ok).
+      + intros _. apply (sr_round H Ok).
+      + intros _. apply (sr_lk H Ok).
+      + intros _. apply (sr_nopend H Ok).
     - intros _. apply (Ul Ok).
     - intros _ _. apply (Cm Ok St).
+  Qed.
+
+  (* ---------------- crash: a prefix of the unsynced records survives ---------------- *)
+
+  Lemma In_firstn {A} k (l : list A) x : In x (firstn k l) -> In x l.
+  Proof. revert l; induction k; intros [|a l]; cbn; try tauto. intros [?|?]; auto. Qed.
+
+  Lemma wal_all_crash_in w k x : In x (wal_all (wal_crash w k)) -> In x (wal_all w).
+  Proof.
+    unfold wal_all, wal_crash. cbn. rewrite !in_app_iff. intros [A|A]; auto. right. eapply In_firstn; eauto.
+  Qed.
+
+  Lemma SimS_crash L kr kl kc s T : SimS L s T -> SimS L (crash kr kl kc s) T.
+  Proof.
+    intros [H _ _]. unfold crash.
+    set (s' := set_status Down (set_wals (wal_crash (wal_r s) kr) (wal_crash (wal_l s) kl) (wal_crash (wal_c s) kc) s)).
+    assert (Dead : ~ vol_ok s') by (intros [R _]; discriminate R).
+    constructor; try (intro; contradiction).
+    assert (KE : forall u, known s' u <-> known s u) by (intro u; reflexivity).
+    constructor; try (intro; contradiction).
+    - apply (sr_reach H).
+    - apply (sr_frame H).
+    - apply (sr_soup H).
+    - intros v Hv. apply (sr_rv H). apply (@wal_all_crash_in (wal_r s) kr). exact Hv.
+    - apply (sr_lpolka H).
+    - apply (sr_dec H).
+    - apply (sr_k0 H).
+    - change (Forall (lsub (known s)) (wal_all (wal_crash (wal_r s) kr))).
+      apply Proofs_ConsensusNet_Run.Forall_wal_crash. apply (sr_walr H).
+    - change (Forall (lsub (known s)) (wal_all (wal_crash (wal_c s) kc))).
+      apply Proofs_ConsensusNet_Run.Forall_wal_crash. apply (sr_walc H).
+    - intros v Hv. apply (sr_crv H v). apply (@wal_all_crash_in (wal_c s) kc). exact Hv.
+    - intros v Hv. cbn in Hv. apply In_firstn in Hv. destruct (sr_pend H v Hv) as [A B]. split; auto.
+      destruct (v_type v); auto. destruct (v_dec v); auto. destruct B as [B1 [B2 B3]]. repeat split; auto.
+      cbn. rewrite B3. destruct kl; reflexivity.
+    - intros u v Hu Hv. cbn in Hu, Hv. apply In_firstn in Hu. apply In_firstn in Hv. apply (sr_pend1 H); auto.
+    - apply (sr_shape H).
+    - apply (sr_lsafe H).
+    - cbn. destruct (sr_lpart H) as [A|[pv [b [r0 [k0 [A [B' [C D]]]]]]]].
+      + left. rewrite A. destruct kl; reflexivity.
+      + right. exists pv, b, r0, (Nat.min kl k0). split; [|auto]. rewrite A. apply firstn_firstn.
+  Qed.
+
+  (* ---------------- restart ---------------- *)
+
+  Lemma restart_s0_stp s s0 ok L :
+    InvD n s -> restart_s0 n own blocks s = (s0, ok, L) -> stp s0 <> SCommit.
+  Proof.
+    intros HD E1. unfold restart_s0 in E1.
+    set (wr := wal_recover (wal_r s)) in *. set (wl := wal_recover (wal_l s)) in *. set (wc := wal_recover (wal_c s)) in *.
+    destruct (fold_left (apply_round_rec n own) (w_synced wr) _) as [[h rs] ok'] eqn:F1.
+    destruct (fold_left (apply_lock_rec n blocks) (w_synced wl) _) as [[[h2 rs2] bp] last] eqn:F2.
+    destruct (fold_left (apply_commit_rec n) (w_synced wc) _) as [h3 rs3] eqn:F3.
+    inversion E1; subst s0 ok L; clear E1.
+    destruct (@fold_round_inv n own (w_synced wr) ([], (0, SNewHeight), true) (hvs_wf_nil n)) as [W1 S1].
+    { unfold restorable; cbn; auto. }
+    rewrite F1 in W1, S1. cbn [fst snd] in W1, S1.
+    assert (LW : Forall lockrec_ok (w_synced wl)) by (subst wl; cbn; apply (d_lockwal HD)).
+    assert (A2 : lock_acc_ok n (h2, rs2, bp, last)).
+    { rewrite <- F2. apply fold_lock_inv; auto. apply lock_acc_ok_intro; auto; intros; discriminate. }
+    destruct A2 as [W2 [S2 _]].
+    destruct (@fold_commit_inv n (w_synced wc) (h2, rs2) W2 S2) as [W3 S3].
+    rewrite F3 in W3, S3. cbn [fst snd] in W3, S3.
+    cbn. apply restorable_not_commit; auto.
+  Qed.
+
+  Lemma firstn_all_ge {A} k (l : list A) : (length l <=? k)%nat = true -> firstn k l = l.
+  Proof. intro H. apply Nat.leb_le in H. apply firstn_all2; auto. Qed.
+
+  Lemma SimS_restart L s T :
+    SimS L s T -> Inv own s -> InvD n s ->
+    exists s0 ok L' T',
+      restart_s0 n own blocks s = (s0, ok, L') /\ SimS L' s0 T' /\ Inv own s0 /\ InvD n s0.
+  Proof.
+    intros [H _ _] HI HD.
+    (* 1. the round WAL is recovered: a surviving pending own vote is cast *)
+    set (sr := set_wals (wal_sync (wal_r s)) (wal_l s) (wal_c s) (set_status Down s)).
+    destruct (@SimR_syncr_state L s sr T H eq_refl eq_refl eq_refl eq_refl) as [T1 [H1 [Lk1 Dd1]]].
+    { intros T' _ _ _. apply volR_dead. intros [R _]. discriminate R. }
+    set (K := known sr).
+    assert (KW : forall v, K v <-> In v E \/ In (RVote v) (wal_all (wal_r s))).
+    { intro v. unfold K, known, cast, sr. cbn. reflexivity. }
+    assert (M0 : forall v, known s v -> K v).
+    { intros v [A|A]; apply KW; auto. right. unfold wal_all. apply in_or_app; auto. }
+    (* one polka per round among the known votes *)
+    assert (KU : forall r vs d vs' d',
+      vs_wf n r Prevote vs -> vs_sub K vs -> over23 (vs_count_dec vs d) n = true ->
+      vs_wf n r Prevote vs' -> vs_sub K vs' -> over23 (vs_count_dec vs' d') n = true -> d = d').
+    { intros r vs d vs' d' W S O W' S' O'.
+      assert (Q : TM.polka n (TM.soup T1) (Z.to_N r) d = true).
+      { refine (sim_quorum (t:=Prevote) H1 (conj W O) _). apply known_vs_sub; auto. }
+      assert (Q' : TM.polka n (TM.soup T1) (Z.to_N r) d' = true).
+      { refine (sim_quorum (t:=Prevote) H1 (conj W' O') _). apply known_vs_sub; auto. }
+      exact (TP.one_polka_per_round n byz Hb3 T1 (Z.to_N r) d d' (sr_reach H1) Q Q'). }
+    (* 2. the lock WAL: the unsynced part of an entry that survived is part of the WAL now *)
+    assert (Sh : exists L', lockwal_shape n blocks K (wal_all (wal_l s)) L' /\
+                            TM.lock_safe n (TM.soup T1) i (convL L') = true).
+    { pose proof (sr_shape H1) as Sh1. pose proof (sr_lsafe H1) as Ls1. cbn in Sh1.
+      destruct (sr_lpart H1) as [A|[pv [b [r0 [k0 [A [Q [C D]]]]]]]]; cbn in A.
+      - exists L. split; auto. unfold wal_all. rewrite A, app_nil_r. exact Sh1.
+      - eexists. split.
+        + unfold wal_all. rewrite A. apply (lockwal_shape_app_firstn k0 Sh1 Q C (nparts_pos b)).
+        + destruct (length (lock_entry blocks pv b) <=? k0)%nat; auto.
+          cbn. rewrite <- D. apply (TP.lock_safe_same n byz Hb3 T1 i (sr_reach H1)). apply correct_i; auto. }
+    destruct Sh as [L' [Sh Ls]].
+    (* 3. the folds of restart *)
+    destruct (fold_left (apply_round_rec n own) (wal_all (wal_r s)) ([], (0, SNewHeight), true)) as [[h rs] ok] eqn:FR.
+    assert (RS : Forall (rec_sub K) (wal_all (wal_r s))).
+    { apply Forall_forall. intros x Hx. destruct x as [v| |l| |]; cbn; auto.
+      - apply KW. auto.
+      - pose proof (sr_walr H1) as W. rewrite Forall_forall in W.
+        assert (In (RVoteList l) (wal_all (wal_r sr))) by (unfold sr; cbn -[wal_all]; rewrite wal_all_sync2; exact Hx).
+        apply (W _ H0). }
+    assert (RC : Forall (rec_sub K) (wal_all (wal_c s))).
+    { apply Forall_forall. intros x Hx. destruct x as [v| |l| |]; cbn; auto.
+      - exfalso. apply (sr_crv H1 v). exact Hx.
+      - pose proof (sr_walc H1) as W. rewrite Forall_forall in W. apply (W _ Hx). }
+    assert (Hh : hvs_sub K h).
+    { pose proof (@fold_round_sub n own K (wal_all (wal_r s)) ([], (0, SNewHeight), true) RS (hvs_sub_nil K)) as X.
+      rewrite FR in X. exact X. }
+    destruct (restart_s0_lock own KU s FR Hh Sh)
+      as [s0 [E0 [R0 [Lr0 [Lk0 [Cu0 [Lo0 [W0 [S0 [Wl0 [Wr0 [Wc0 [Se0 [Gl0 [De0 _]]]]]]]]]]]]]]].
+    destruct (@Proofs_ConsensusNet_Run.restart_s0_inv n byz blocks i Hi Hb3 s s0 ok L' HI HD E0) as [HI0 [HD0 [Rd0 Fu0]]].
+    pose proof (restart_s0_stp HD E0) as St0.
+    pose proof (tm_setlock n byz i Hi Hbyz T1 _ Ls) as St.
+    exists s0, ok, L', (TM.set_lock T1 i (convL L')). split; auto. split; [|auto].
+    assert (KE : forall v, known s0 v <-> K v).
+    { intro v. rewrite KW. unfold known, cast. rewrite Wr0. cbn. reflexivity. }
+    assert (M : forall v, K v -> known s0 v) by (intro v; apply KE).
+    constructor.
+    - constructor.
+      + eapply TP.reachable_step; [apply (sr_reach H1)|exact St].
+      + apply frame_set_lock, (sr_frame H1).
+      + intro m. cbn [TM.set_lock TM.soup]. rewrite (sr_soup H1).
+        split; intros [v [Kv C]]; exists v; split; auto; apply KE; auto.
+      + rewrite Wr0, Proofs_ConsensusNet_Run.wal_all_recover. apply (sr_rv H).
+      + intros lr b. cbn. rewrite upd_same. intro El.
+        destruct L' as [[b0 r0]|]; [|discriminate]. cbn in El. inversion El; subst.
+        destruct (Proofs_ConsensusNet_Run.shape_quorum Sh) as [pv [Q Sp]].
+        refine (sim_quorum (t:=Prevote) H1 Q _). apply known_vs_sub; auto.
+      + rewrite De0. cbn. apply (sr_dec H1).
+      + intros v Hv. apply M. apply (sr_k0 H1); auto.
+      + rewrite Wr0, Proofs_ConsensusNet_Run.wal_all_recover.
+        pose proof (sr_walr H1) as W. unfold sr in W. cbn -[wal_all] in W. rewrite wal_all_sync2 in W.
+        eapply Forall_lsub_mono; [exact M|exact W].
+      + rewrite Wc0, Proofs_ConsensusNet_Run.wal_all_recover.
+        eapply Forall_lsub_mono; [exact M|apply (sr_walc H1)].
+      + rewrite Wc0, Proofs_ConsensusNet_Run.wal_all_recover. apply (sr_crv H1).
+      + rewrite Wr0. cbn. intros v [].
+      + rewrite Wr0. cbn. intros u v [].
+      + rewrite Wl0. cbn. eapply lockwal_shape_mono; [exact M|exact Sh].
+      + exact Ls.
+      + left. rewrite Wl0. reflexivity.
+      + intros _. cbn. rewrite upd_same, Lo0. destruct L' as [[b r]|]; reflexivity.
+      + intros _ u Hu. apply M. eapply Proofs_ConsensusNet_Run.hvs_sub_has; [apply S0; exact RC|exact Hu].
+      + intros _. exact Rd0.
+      + intros _ _. right. cbn. apply upd_same.
+      + intros _. rewrite Wr0. cbn. intros v [].
+    - intros _. rewrite Wl0. reflexivity.
+    - intros _ Es. contradiction.
   Qed.
 
 End Sim2.
